@@ -1,5 +1,6 @@
 import BadgerModel.Table
 import BadgerProofs.Lemmas.TableSeek
+import BadgerProofs.Lemmas.Concat
 /-!
 # C18 — SSTables return exactly the entries they were built from
 
@@ -403,5 +404,268 @@ theorem C18_roundtrip_codec {env₁ env₂ : Env} {K₁ K₂ : Nat} {o₁ o₂ :
   cases rev with
   | false => exact ⟨by rw [a.1, b.1], by simpa using a.1⟩
   | true => exact ⟨by rw [a.2, b.2], by simpa using a.2⟩
+
+/-! ## ConcatIterator -/
+
+/-- A table description: options, entries, built file. -/
+abbrev Tbl.TabSpec := Opts × List Entry × TableFile
+
+theorem Tbl.exists_groups {env : Env} {K : Nat} : ∀ (tabs : List TabSpec),
+    (∀ x ∈ tabs, Built env K x.1 x.2.1 x.2.2) →
+    ∃ Gs : List (List (List Entry)), Gs.length = tabs.length ∧ flatAll Gs = (tabs.map (·.2.1)).flatten ∧
+      ∀ (i : Nat) x G, tabs[i]? = some x → Gs[i]? = some G →
+        TableOK env ⟨x.1, x.2.2⟩ G ∧ (∀ g ∈ G, g ≠ []) ∧ G ≠ [] ∧
+        (∀ g ∈ G, ∀ e ∈ g, e.vs.expiresAt < 2 ^ 64) := by
+  intro tabs
+  induction tabs with
+  | nil => intro _; exact ⟨[], rfl, rfl, by intro i x G h; simp at h⟩
+  | cons x xs ih =>
+    intro hb
+    obtain ⟨Gs, hlen, hflat, hall⟩ := ih (fun y hy => hb y (by simp [hy]))
+    have hx := hb x (by simp)
+    obtain ⟨G, hG, hne, hGne, ok, _⟩ := hx.tableOK
+    refine ⟨G :: Gs, by simp [hlen], ?_, ?_⟩
+    · simp only [flatAll, List.map_cons, List.flatten_cons] at hflat ⊢
+      rw [hG, hflat]
+    · intro i y G' hy hG'
+      cases i with
+      | zero =>
+        simp only [List.getElem?_cons_zero, Option.some.injEq] at hy hG'
+        subst hy; subst hG'
+        refine ⟨ok, hne, hGne, ?_⟩
+        intro g hg e he
+        exact hx.exp e (by rw [← hG]; exact List.mem_flatten.mpr ⟨g, hg, he⟩)
+      | succ i =>
+        simp only [List.getElem?_cons_succ] at hy hG'
+        exact hall i y G' hy hG'
+
+/-- **C18_concat.** A `ConcatIterator` over any list of built tables iterates, forward, the
+    concatenation of their entry lists, and reversed, its reverse: `Rewind`, lazy `setIdx`,
+    `Next` crossing into the following (preceding) table. -/
+theorem C18_concat {env : Env} {K : Nat} (tabs : List TabSpec)
+    (hb : ∀ x ∈ tabs, Built env K x.1 x.2.1 x.2.2) (ts : List Table)
+    (hcore : ts.map (·.core) = tabs.map (fun x => ⟨x.1, x.2.2⟩))
+    (fuel : Nat) (hfuel : ((tabs.map (·.2.1)).flatten).length < fuel) :
+    concatEntries env ts false fuel = some (tabs.map (·.2.1)).flatten ∧
+    concatEntries env ts true fuel = some (tabs.map (·.2.1)).flatten.reverse := by
+  obtain ⟨Gs, hlen, hflat, hall⟩ := exists_groups tabs hb
+  have hlts : ts.length = tabs.length := by
+    have := congrArg List.length hcore; simpa using this
+  have hts : TabsOK env ts Gs := by
+    refine ⟨by rw [hlts, hlen], ?_⟩
+    intro i t G ht hG
+    obtain ⟨x, hx⟩ := getElem?_some_of_lt tabs i (by rw [← hlts]; exact lt_of_getElem?_some ht)
+    have hc : t.core = ⟨x.1, x.2.2⟩ := by
+      have h1 : (ts.map (·.core))[i]? = some t.core := by simp [ht]
+      rw [hcore] at h1
+      simp only [List.getElem?_map, hx, Option.map_some, Option.some.injEq] at h1
+      exact h1.symm
+    obtain ⟨ok, hne, hGne, hexp⟩ := hall i x G hx hG
+    exact ⟨by rw [hc]; exact ok, hne, hGne, hexp⟩
+  have := concatEntries_ok hts fuel (by rw [hflat]; exact hfuel)
+  rw [hflat] at this
+  exact this
+
+/-! ## The builder asserts -/
+
+theorem Tbl.u32_le (n : Nat) : u32 n ≤ n := Nat.mod_le _ _
+
+theorem Tbl.addEntry_total (cur : BBlock) (key : Bytes) (v : VS) (hk : key.length ≤ 65531) :
+    ∃ c, cur.addEntry key v = some c := by
+  unfold BBlock.addEntry
+  have h1 : (if cur.baseKey.length = 0 then key else keyDiff key cur.baseKey).length ≤ key.length := by
+    split
+    · exact Nat.le_refl _
+    · simp [keyDiff]
+  have h2 : key.length - (if cur.baseKey.length = 0 then key else keyDiff key cur.baseKey).length ≤ 65535 := by omega
+  have h3 : (if cur.baseKey.length = 0 then key else keyDiff key cur.baseKey).length ≤ 65535 := by omega
+  simp only [h2, h3, not_true_eq_false, if_false]
+  exact ⟨_, rfl⟩
+
+theorem Tbl.add_total {env : Env} {o : Opts} {b : Builder} {done : List (List Entry)} {cur : List Entry}
+    (inv : BuilderInv env b done cur) (e : Entry) (hk : e.key.length ≤ 65531)
+    (hsz : 2 * entriesSize cur + (4 + e.key.length + (encVS e.vs).length) + 4 * cur.length + 64 < 4294967296) :
+    ∃ b', b.add env o e.key e.vs 0 = some b' := by
+  unfold Builder.add
+  simp only [Bool.false_eq_true, if_false]
+  have hdl : b.cur.data.length ≤ entriesSize cur := by
+    rw [inv.cur_eq]; exact blockData_length_le cur
+  have hn : b.cur.entryOffsets.length = cur.length := by rw [inv.cur_eq, specBlock_offs_length]
+  have hes : encodedSize e.vs ≤ (encVS e.vs).length := by
+    unfold encodedSize encVS
+    have := u32_le (e.vs.value.length + 2 + (putUvarint e.vs.expiresAt).length)
+    simp only [List.length_cons, List.length_append]
+    omega
+  have hsf : ∃ r, shouldFinishBlock o.blockSize o.encrypt b.cur e.key e.vs = some r := by
+    unfold shouldFinishBlock
+    by_cases h0 : b.cur.entryOffsets.length = 0
+    · simp [h0]
+    · simp only [h0, if_false]
+      have a1 : u32 ((u32 b.cur.entryOffsets.length + 1) * 4 + 4 + 8 + 4) < 4294967295 := by
+        have := u32_le ((u32 b.cur.entryOffsets.length + 1) * 4 + 4 + 8 + 4)
+        have := u32_le b.cur.entryOffsets.length
+        omega
+      simp only [a1, not_true_eq_false, if_false]
+      have e1 := u32_le ((b.cur.entryOffsets.length + 1) * 4 + 4 + 8 + 4)
+      have e2 := u32_le b.cur.data.length
+      have e3 := u32_le e.key.length
+      have e4 := u32_le (u32 b.cur.data.length + 6 + u32 e.key.length + encodedSize e.vs +
+        u32 ((b.cur.entryOffsets.length + 1) * 4 + 4 + 8 + 4))
+      have e5 := u32_le (u32 (u32 b.cur.data.length + 6 + u32 e.key.length + encodedSize e.vs +
+        u32 ((b.cur.entryOffsets.length + 1) * 4 + 4 + 8 + 4)) + 16)
+      have a2 : b.cur.data.length + (if o.encrypt = true then
+          u32 (u32 (u32 b.cur.data.length + 6 + u32 e.key.length + encodedSize e.vs +
+            u32 ((b.cur.entryOffsets.length + 1) * 4 + 4 + 8 + 4)) + 16)
+          else u32 (u32 b.cur.data.length + 6 + u32 e.key.length + encodedSize e.vs +
+            u32 ((b.cur.entryOffsets.length + 1) * 4 + 4 + 8 + 4))) < 4294967295 := by
+        split <;> omega
+      simp only [a2, not_true_eq_false, if_false]
+      exact ⟨_, rfl⟩
+  obtain ⟨r, hr⟩ := hsf
+  rw [hr]
+  cases r with
+  | false =>
+    simp only
+    unfold Builder.addHelper
+    obtain ⟨c, hc⟩ := addEntry_total b.cur e.key e.vs hk
+    rw [hc]; exact ⟨_, rfl⟩
+  | true =>
+    simp only
+    unfold Builder.addHelper
+    obtain ⟨c, hc⟩ := addEntry_total ({} : BBlock) e.key e.vs hk
+    simp only [hc]; exact ⟨_, rfl⟩
+
+theorem Tbl.addAll_total {env : Env} {o : Opts} : ∀ (es : List Entry) {b : Builder}
+    {done : List (List Entry)} {cur : List Entry},
+    BuilderInv env b done cur → (∀ e ∈ es, e.key ≠ [] ∧ e.key.length ≤ 65531) →
+    2 * (entriesSize (done.flatten ++ cur) + entriesSize es) + 4 * ((done.flatten ++ cur).length + es.length) + 64 < 4294967296 →
+    ∃ b', Builder.addAll env o b es = some b' := by
+  intro es
+  induction es with
+  | nil => intro b done cur _ _ _; exact ⟨b, rfl⟩
+  | cons e es ih =>
+    intro b done cur inv hk hsz
+    simp only [Builder.addAll]
+    have hcur : entriesSize cur ≤ entriesSize (done.flatten ++ cur) ∧ cur.length ≤ (done.flatten ++ cur).length := by
+      rw [entriesSize_append]; simp
+    have hcons : entriesSize (e :: es) = (4 + e.key.length + (encVS e.vs).length) + entriesSize es := by
+      simp [entriesSize]
+    rw [hcons] at hsz
+    simp only [List.length_cons] at hsz
+    obtain ⟨b1, hadd⟩ := add_total (o := o) inv e (hk e (by simp)).2 (by omega)
+    rw [hadd]
+    obtain ⟨d1, c1, inv1, _, hfl1⟩ := add_inv inv e (hk e (by simp)).1 hadd
+    apply ih inv1 (fun x hx => hk x (by simp [hx]))
+    rw [hfl1, entriesSize_append, List.length_append]
+    have : entriesSize [e] = 4 + e.key.length + (encVS e.vs).length := by simp [entriesSize]
+    rw [this]
+    simp only [List.length_singleton]
+    omega
+
+/-- **C18_build_total.** No builder assert (`y.AssertTrue` in `addHelper` /
+    `shouldFinishBlock`) fires for inputs below 2 GiB with keys of at most 65531 bytes, and a
+    non-empty input yields a table: the hypothesis `built` of `Built` is satisfiable for
+    every such input. -/
+theorem C18_build_total (env : Env) (o : Opts) (es : List Entry) (hne : es ≠ [])
+    (hk : ∀ e ∈ es, e.key ≠ [] ∧ e.key.length ≤ 65531)
+    (hsz : 2 * entriesSize es + 4 * es.length + 64 < 4294967296) :
+    ∃ tf, buildTable env o es = some (some tf) := by
+  obtain ⟨b, hb⟩ := addAll_total (env := env) (o := o) es (builderInv_init env) hk (by simpa [entriesSize] using hsz)
+  obtain ⟨done, cur, inv, hcur, _⟩ := addAll_inv es (builderInv_init env) (fun e he => (hk e he).1) hb
+  unfold buildTable
+  rw [hb]
+  obtain ⟨hbl, _, _⟩ := finishBlock_inv inv (hcur hne)
+  unfold Builder.done
+  have : ¬ ((b.finishBlock env).blockList.length = 0) := by rw [hbl]; simp
+  simp only [this, if_false]
+  exact ⟨_, rfl⟩
+
+/-! ## A key the builder accepts and the iterator cannot decode (finding) -/
+
+/-- **C18_overlong_key_panics.** `addHelper` only asserts `len(diffKey) <= math.MaxUint16`, but
+    `setIdx` computes `headerSize + h.diff` in `uint16`: a first key of a block with
+    65532..65535 bytes is accepted by the builder and makes the very first `setIdx(0)` (hence
+    `OpenTable`, which computes `Biggest()`) panic with a slice-bounds error. Replayed on the
+    real code in `corpus/C18/overlong.ops` (65524-byte user key). Unreachable through the DB
+    API, which limits user keys to 65000 bytes. -/
+theorem C18_overlong_key_panics (key : Bytes) (v : VS) (h1 : 65532 ≤ key.length) (h2 : key.length ≤ 65535) :
+    ∃ cur, ({} : BBlock).addEntry key v = some cur ∧
+      ({ data := cur.data, entryOffsets := cur.entryOffsets } : BlockIter).setIdx 0 = none := by
+  have hadd : ({} : BBlock).addEntry key v =
+      some { data := hdr 0 key.length ++ key ++ encVS v, baseKey := key, entryOffsets := [u32 0] } := by
+    unfold BBlock.addEntry
+    have a : ¬ ¬ (key.length - key.length ≤ 65535) := by omega
+    have b : ¬ ¬ (key.length ≤ 65535) := by omega
+    simp [a, b]
+  refine ⟨_, hadd, ?_⟩
+  unfold BlockIter.setIdx
+  simp only [List.length_cons, List.length_nil]
+  have hr : ¬ ((0 : Int) ≥ ((0 + 1 : Nat) : Int) ∨ (0 : Int) < 0) := by omega
+  simp only [hr, if_false]
+  have hdb : ({ data := hdr 0 key.length ++ key ++ encVS v, entryOffsets := [u32 0], idx := 0, err := none } :
+      BlockIter).decodeBase = none := by
+    unfold BlockIter.decodeBase
+    simp only [List.length_nil, if_true]
+    rw [List.append_assoc, slice_prefix _ _ 4 (by simp [hdr_length]), Option.bind_some,
+      hdr_drop2 _ _ (by omega)]
+    unfold slice
+    have : u16 (4 + key.length) < 4 := by unfold u16; omega
+    have : ¬ (4 ≤ u16 (4 + key.length) ∧
+        u16 (4 + key.length) ≤ (hdr 0 key.length ++ (key ++ encVS v)).length) := by omega
+    rw [if_neg this]
+  rw [hdb]; rfl
+
+/-! ## Non-vacuity: the hypotheses are satisfiable by a concrete table -/
+
+namespace Tbl.Example
+
+/-- A lawful environment: empty checksum, identity compression, "encryption" that appends a
+    16-byte IV slot. -/
+def env : Env where
+  cksum := fun _ => []
+  verify := fun _ ck => ck == []
+  comp := id
+  decomp := some
+  enc := fun _ b => b ++ List.replicate 16 0
+  dec := fun b => some (b.take (b.length - 16))
+  hash := fun k => k.length
+  mkFilter := fun hs => hs.map (fun h => UInt8.ofNat h)
+  mayContain := fun f h => f.contains (UInt8.ofNat h)
+
+theorem env_lawful : env.Lawful where
+  verify_cksum := by intro d; rfl
+  decomp_comp := by intro b; rfl
+  dec_enc := by intro i b; simp [env]
+  enc_len := by intro i b; simp [env]
+
+def k (c : UInt8) (ts : Nat) : Bytes := keyWithTs [0x61, c] ts
+
+def es : List Entry :=
+  [⟨k 0x61 7, ⟨1, 2, 0, [9, 9, 9]⟩⟩, ⟨k 0x61 5, ⟨0, 0, 300, []⟩⟩, ⟨k 0x62 1, ⟨3, 4, 0, [1]⟩⟩]
+
+def o : Opts := { blockSize := 90, compress := true, encrypt := true, bloom := true, chkMode := 3 }
+
+example : Sorted es := by
+  unfold Sorted es
+  decide
+
+example : ∀ e ∈ es, e.key ≠ [] ∧ e.key.length ≤ 65531 ∧ 8 ≤ e.key.length ∧ e.vs.expiresAt < 2 ^ 64 := by
+  decide
+
+set_option maxRecDepth 100000 in
+/-- The concrete instance satisfies `Built` (three entries in two blocks — the first with two entries sharing a key prefix —, compressed + encrypted). -/
+example : ∃ tf, Built env 0 o es tf ∧ tf.index.offsets.length = 2 := by
+  obtain ⟨tf, htf⟩ := C18_build_total env o es (by decide) (by decide) (by decide)
+  have hdata : tf.data.length < 4294967296 ∧ tf.index.offsets.length = 2 := by
+    have : buildTable env o es = some (some tf) := htf
+    have h2 : ∃ tf', buildTable env o es = some (some tf') ∧ tf'.data.length < 4294967296 ∧
+        tf'.index.offsets.length = 2 := by
+      refine ⟨_, rfl, ?_, ?_⟩ <;> decide
+    obtain ⟨tf', h3, h4⟩ := h2
+    rw [this] at h3
+    cases h3; exact h4
+  exact ⟨tf, ⟨env_lawful, by intro d; simp [env], by decide, by decide, by decide, by decide, htf, hdata.1⟩, hdata.2⟩
+
+end Tbl.Example
 
 end Badger
